@@ -253,9 +253,16 @@ pub fn prop(c: &Case, log: &mut CaseLog) -> Verdict {
     let detail = |what: &str| format!("{}\nstate {:?}, order {:?}, delay {} ms\nsession: {:?}\nstderr: {}", what, c.state, c.order, c.delay_ms, trace, stderr);
     match status {
         Some((Some(0), _)) => {
-            drop(squatter.take());
+            let squatted = squatter.take().is_some();
             // the debug port must be free again
             if std::net::TcpListener::bind(("127.0.0.1", port)).is_err() {
+                if !squatted && stderr.contains("Couldn't listen on port") {
+                    // the server itself never had the port: between the moment the harness found it free and the
+                    // moment the server wanted it, another process of this machine took it (a server of the check
+                    // that ran before this one and is still on its way out, for example). Nothing to judge.
+                    log.label("debug-port-taken-by-another-process");
+                    return Verdict::Discard("the debug port was taken by a foreign process before the server could bind it".into());
+                }
                 return Verdict::fail("debug-port-still-bound-after-exit", detail("port not released"));
             }
             Verdict::Pass
